@@ -171,7 +171,21 @@ def check_batched(ctx, fi: FuncInfo, cls: str, rule: str = "NI-1") -> int:
             whym = f"result {k} is not a reshape of the scan output"
         else:
             src, dims = rs
-            if not dims or (n_walkers is not None and dims[0] is not n_walkers):
+            def same_count(a, b) -> bool:
+                """the walker count read off one block of the [up, dn] container is the count read off the other"""
+                if a is b:
+                    return True
+                a, b = strip_wrappers(a), strip_wrappers(b)
+
+                def block_of(t):
+                    if t.op == "getitem" and is_const(t.args[1], 0) and t.args[0].op == "attr" and t.args[0].args[1] == "shape":
+                        blk = strip_wrappers(t.args[0].args[0])
+                        if blk.op == "getitem" and blk.args[1].op == "const" and blk.args[1].args[0] in (0, 1):
+                            return strip_wrappers(blk.args[0])
+                    return None
+                ba, bb = block_of(a), block_of(b)
+                return ba is not None and ba is bb
+            if not dims or (n_walkers is not None and not same_count(dims[0], n_walkers)):
                 whym = f"merged leading dimension is {show(dims[0]) if dims else '?'}, not n_walkers"
             else:
                 s2 = strip_wrappers(src)
